@@ -20,10 +20,13 @@ static int build(int cfg)
     nc_defaults();
     NC.freq = cfg == 4 ? 10000 : 1000; USPT = 1000000u / NC.freq;
     NC.sync = 1; NC.sync_id = ID0[cfg]; NC.sync_cycle = CYT[cfg] * USPT;
-    NC.n_rpdo = 1; NC.rpdo[0].present = 1; NC.rpdo[0].cobid = 0x201; NC.rpdo[0].type = 1; NC.rpdo[0].nmap = 1; NC.rpdo[0].map[0] = NC_MAP(0x2110, 0, 8);
-    NC.n_tpdo = 4; NC.tpdo[0].present = 1; NC.tpdo[0].cobid = 0x40000181u; NC.tpdo[0].type = 1; NC.tpdo[0].nmap = 1; NC.tpdo[0].map[0] = NC_MAP(0x2111, 0, 16);
+    /* --opt rnum=K / tlast=K: number of the synchronous RPDO / of the second synchronous TPDO (builds with CO_RPDO_N != CO_TPDO_N: the highest RPDO number lies
+     * above the TPDO count and vice versa) */
+    int rn = mc_opt("rnum", 0), tl = mc_opt("tlast", 3);
+    NC.n_rpdo = rn + 1; NC.rpdo[rn].present = 1; NC.rpdo[rn].cobid = 0x201; NC.rpdo[rn].type = 1; NC.rpdo[rn].nmap = 1; NC.rpdo[rn].map[0] = NC_MAP(0x2110, 0, 8);
+    NC.n_tpdo = tl + 1; NC.tpdo[0].present = 1; NC.tpdo[0].cobid = 0x40000181u; NC.tpdo[0].type = 1; NC.tpdo[0].nmap = 1; NC.tpdo[0].map[0] = NC_MAP(0x2111, 0, 16);
     /* a second synchronous TPDO, number 3 and type 2: "every SYNC advances EACH synchronous PDO's schedule exactly once" */
-    NC.tpdo[3].present = 1; NC.tpdo[3].cobid = 0x40000481u; NC.tpdo[3].type = 2; NC.tpdo[3].nmap = 1; NC.tpdo[3].map[0] = NC_MAP(0x2110, 0, 8);
+    NC.tpdo[tl].present = 1; NC.tpdo[tl].cobid = 0x40000481u; NC.tpdo[tl].type = 2; NC.tpdo[tl].nmap = 1; NC.tpdo[tl].map[0] = NC_MAP(0x2110, 0, 8);
     nc_build();
     (void)CONodeGetErr(&Node);
     memset(&M, 0, sizeof M);
